@@ -142,14 +142,29 @@ def run(ctx):
             if style == "explicit-zero" and rng.random() < 0.4:
                 v = 0.0 if tc == "d" else 0j
             trip.append((i, j, v))
-        if any(t[2] == 0 for t in trip):
-            ctx.count("c20.sparse.explicit-zero")
         cols = set(t[1] for t in trip)
         if len(cols) < n:
             ctx.count("c20.sparse.empty-column")
         order = list(trip)
         rng.shuffle(order)
-        A = spmatrix([t[2] for t in order], [t[0] for t in order], [t[1] for t in order], (m, n), tc)
+        if any(t[2] == 0 for t in trip) and rng.random() < 0.5:
+            # explicit zeros stored through the V attribute: the source object then has them whatever the
+            # triplet constructor (which __reduce__ goes through) does with zero values
+            A = spmatrix([1.0] * len(order), [t[0] for t in order], [t[1] for t in order], (m, n), tc)
+            if len(A.V) == len(trip):
+                A.V = matrix([t[2] for t in trip], (len(trip), 1), tc)
+            ctx.count("c20.sparse.source-values-via-V")
+        else:
+            A = spmatrix([t[2] for t in order], [t[0] for t in order], [t[1] for t in order], (m, n), tc)
+        # the source object itself must be what was asked for (otherwise the round trips below say nothing
+        # about explicit zeros): counted from the object, not from the request
+        got = list(zip(A.I, A.J, A.V))
+        if [(i, j) for i, j, _ in got] != [(i, j) for i, j, _ in trip] or \
+                not same_vals([v for _, _, v in got], [(float(v) if tc == "d" else complex(v)) for _, _, v in trip], tc):
+            ctx.count("c20.sparse.source-differs-from-request")
+            trip = got
+        if any(v == 0 for _, _, v in got):
+            ctx.count("c20.sparse.explicit-zero")
         return A, trip          # trip is in column-major order
 
     # ---------------------------------------------------------------- comparison
